@@ -5,6 +5,7 @@
    same map.  With C06_replies this gives: bytes on the wire in, bytes on the wire out, records on disk. *)
 From BC Require Import Base.Bytes Resp.Frame Resp.Conn Resp.Handler Resp.HandlerProofs.
 From BC Require Import Store.Codec Store.Engine Store.Log Store.Inv Store.Refine Store.Theorems.
+From BC Require Store.Crash Store.CrashScript.
 From Coq Require Import ZArith List Lia.
 Import ListNotations.
 
@@ -121,4 +122,71 @@ Proof.
   destruct (handle_e c init (read_all (fixed Release) segs []) []) as [[o1 s'] t1].
   destruct (handle [] (read_all (fixed Release) segs []) []) as [[o2 m'] t2]. cbn [fst snd] in *.
   destruct Hs as (_ & -> & Hd). split; [exact Ht|]. rewrite <- He. exact Hd.
+Qed.
+
+(* ---- the loop is a script of the engine ----
+   What the handler does to the engine is a script of sets, gets and deletes (one delete per key of a DEL); so every
+   theorem about scripts (bytes on disk, crash safety, power-loss safety, file discipline) holds of the server. *)
+Definition ops_of_cmd (cm : cmd) : list op :=
+  match cm with CGet k => [OGet k] | CSet k v => [OSet k v] | CDel ks => map ODel ks end.
+
+Lemma run_app_state c : forall a s b, fst (fst (run c s (a ++ b))) = fst (fst (run c (fst (fst (run c s a))) b)).
+Proof.
+  induction a as [|o a IH]; intros s b; cbn [app run]; [reflexivity|].
+  destruct (step c s o) as [[s1 r] t] eqn:E. specialize (IH s1 b).
+  destruct (run c s1 (a ++ b)) as [[s2 rs] ts]. destruct (run c s1 a) as [[s3 rs3] ts3]. cbn [fst] in *. exact IH.
+Qed.
+Lemma run_app_trace c : forall a s b, snd (run c s (a ++ b)) = snd (run c s a) ++ snd (run c (fst (fst (run c s a))) b).
+Proof.
+  induction a as [|o a IH]; intros s b; cbn [app run]; [reflexivity|].
+  destruct (step c s o) as [[s1 r] t] eqn:E. specialize (IH s1 b).
+  destruct (run c s1 (a ++ b)) as [[s2 rs] ts]. destruct (run c s1 a) as [[s3 rs3] ts3]. cbn [fst snd] in *. rewrite IH, app_assoc. reflexivity.
+Qed.
+
+Lemma del_all_script c : forall ks s n, fst (del_all_e c s ks n) = fst (fst (run c s (map ODel ks))).
+Proof.
+  induction ks as [|k ks IH]; intros s n; cbn [del_all_e map run]; [reflexivity|].
+  unfold del_e. destruct (step c s (ODel k)) as [[s1 r] t]. specialize (IH s1).
+  destruct (run c s1 (map ODel ks)) as [[s2 rs] ts]. cbn [fst] in *. destruct r; apply IH.
+Qed.
+
+Lemma apply_script c s cm : fst (apply_cmd_e c s cm) = fst (fst (run c s (ops_of_cmd cm))).
+Proof.
+  destruct cm as [k|k v|ks]; cbn [apply_cmd_e ops_of_cmd fst].
+  - cbn [run]. destruct (step c s (OGet k)) as [[s1 r] t] eqn:E. cbn [fst].
+    change s1 with (fst (fst (s1, r, t))). rewrite <- E. cbn [step]. destruct (get s k); reflexivity.
+  - cbn [run]. destruct (step c s (OSet k v)) as [[s1 r] t]. reflexivity.
+  - pose proof (del_all_script c ks s 0%Z) as H. destruct (del_all_e c s ks 0) as [s' n]. exact H.
+Qed.
+
+(* the commands executed: those accepted before the first rejected frame *)
+Definition script_of (rs : list rres) : list op := concat (map ops_of_cmd (accepted rs)).
+
+Theorem handle_is_script c : forall rs s m out, denotes s m ->
+  snd (fst (handle_e c s rs out)) = fst (fst (run c s (script_of rs))).
+Proof.
+  induction rs as [|r rs IH]; intros s m out Hd; cbn [handle_e]; [reflexivity|].
+  destruct r as [f| | |e| | |]; try reflexivity. unfold script_of. cbn [accepted].
+  destruct (cmd_of f) as [cm|e]; [|reflexivity]. cbn [map concat].
+  pose proof (apply_script c s cm) as Ha. pose proof (apply_sim c s m cm Hd) as Hs.
+  destruct (reply_encodes m cm) as (b & Eb).
+  destruct (apply_cmd_e c s cm) as [s1 reply]. destruct (apply_cmd m cm) as [m1 reply2]. cbn [fst snd] in *.
+  destruct Hs as [Hd1 ->]. rewrite Eb. rewrite run_app_state, <- Ha. apply (IH s1 m1). exact Hd1.
+Qed.
+
+(* The server is crash safe: whatever bytes a connection sends, in whatever pieces, every crash image of the system
+   calls its commands cause (any call boundary, the last write cut at any byte) opens to the map after some prefix
+   of the engine operations those commands consist of. *)
+Theorem server_crash_safe c segs s0 :
+  let ops := script_of (read_all (fixed Release) segs []) in
+  Store.Crash.rep s0 (s_dir init) -> Store.Crash.trace_wf (snd (run c init ops)) ->
+  forall img, Store.Crash.image_of s0 (snd (run c init ops)) img ->
+    exists n, (n <= length ops)%nat /\ Store.CrashScript.img_ok img (abs (Store.CrashScript.state_after c init ops n)).
+Proof.
+  intros ops Hrep Hwf. apply Store.CrashScript.crash_safe_no_merge; [|exact Hrep|exact Hwf].
+  intros o Hin. unfold ops, script_of in Hin. apply in_concat in Hin as (l & Hl & Ho). apply in_map_iff in Hl as (cm & <- & _).
+  destruct cm as [k|k v|ks]; cbn [ops_of_cmd] in Ho.
+  - destruct Ho as [<-|[]]. reflexivity.
+  - destruct Ho as [<-|[]]. reflexivity.
+  - apply in_map_iff in Ho as (k & <- & _). reflexivity.
 Qed.
